@@ -6,6 +6,7 @@ package template
 
 import (
 	"fmt"
+	"html"
 	"regexp"
 	"strings"
 )
@@ -144,6 +145,47 @@ func sanitizersForAttributeValue(c context) ([]string, error) {
 		ret = append(ret, normalizeURLFuncName)
 	}
 	return reverse(ret), nil
+}
+
+// validateTextAfterStartAction returns an error if text, static template text inside the attribute
+// value of context c, follows an action at the very start of that value and is unsafe there.
+// c.attr.value holds the static text already seen between that action and text.
+//
+// The action was sanitized as a complete value of its own. In an enumerated context any text
+// after it turns the emitted word into a different one. In a URL context the value of the
+// action may be a relative URL without any '/', '?' or '#' (e.g. "java"); the static text
+// continues its first path segment, so a ':' in it (e.g. "script:") would end a scheme that
+// the value of the action is a part of.
+func validateTextAfterStartAction(c context, text string) error {
+	if !c.attr.dynamicStart || text == "" {
+		return nil
+	}
+	elems, attrs := c.element.names, c.attr.names
+	if len(elems) == 0 {
+		elems = []string{c.element.name}
+	}
+	if len(attrs) == 0 {
+		attrs = []string{c.attr.name}
+	}
+	for _, elem := range elems {
+		for _, attr := range attrs {
+			sc, err := sanitizationContextForAttrVal(elem, attr, c.linkRel)
+			if err != nil {
+				// The action itself has been refused.
+				continue
+			}
+			if sc.isEnum() {
+				return fmt.Errorf("partial substitutions are disallowed in the %q attribute value context of a %q element", attr, elem)
+			}
+			if sc != sanitizationContextURL && sc != sanitizationContextTrustedResourceURLOrURL {
+				continue
+			}
+			if colonInFirstSegmentPattern.MatchString(html.UnescapeString(c.attr.value + text)) {
+				return fmt.Errorf("text %q after an action at the start of the %q URL attribute value of a %q element is unsafe; it might be interpreted as part of a scheme", c.attr.value+text, attr, elem)
+			}
+		}
+	}
+	return nil
 }
 
 // reverse reverses s and returns it.
